@@ -165,7 +165,7 @@ Mutate(m, c) ==
     [] m = "feb30" -> [c EXCEPT !.mo = 2, !.dd = 30, !.wd = 1, !.expect = "refuse"]
     [] m = "feb29" -> [c EXCEPT !.mo = 2, !.dd = 29, !.wd = 1, !.expect = "refuse"]
     [] m = "apr31" -> [c EXCEPT !.mo = 4, !.dd = 31, !.wd = 1, !.expect = "refuse"]
-    [] m = "hh24" -> [c EXCEPT !.hh = 24, !.expect = "refuse"]
+    [] m = "hh24" -> [c EXCEPT !.hh = 24, !.expect = "soft"]
     [] m = "hh25" -> [c EXCEPT !.hh = 25, !.expect = "refuse"]
     [] m = "h13" -> [c EXCEPT !.h12 = 13, !.expect = "refuse"]
     [] m = "h00" -> [c EXCEPT !.h12 = 0, !.expect = "refuse"]
@@ -179,7 +179,7 @@ Mutate(m, c) ==
     [] m = "offm24" -> [c EXCEPT !.ok = 1, !.off = -86400, !.expect = "refuse"]
     [] m = "off99" -> [c EXCEPT !.ok = 1, !.off = 99 * 3600, !.expect = "refuse"]
     [] m = "off2500" -> [c EXCEPT !.ok = 1, !.off = 25 * 3600, !.expect = "refuse"]
-    [] m = "wd" -> [c EXCEPT !.wd = (WeekdayOf(DaysFromCivil(c.y, c.mo, c.dd)) % 7) + 1, !.expect = "refuse"]
+    [] m = "wd" -> [c EXCEPT !.wd = (WeekdayOf(DaysFromCivil(c.y, c.mo, c.dd)) % 7) + 1, !.expect = "soft"]
     [] m = "ord366" -> [c EXCEPT !.ord = 366, !.expect = "refuse"]
     [] m = "ord000" -> [c EXCEPT !.ord = 0, !.expect = "refuse"]
     [] m = "ord367" -> [c EXCEPT !.ord = 367, !.expect = "refuse"]
